@@ -20,7 +20,14 @@ def main():
         print('replaying %d witnesses of %s [%s] against %s' % (len(r['witnesses']), prop, r['key'], core.REPO))
         mod.replay(ctx, [core.unjson(w['case']) for w in r['witnesses']])
     else:
+        from . import attach
+        import random
+        if not getattr(mod, 'NO_DETERMINISM', False):
+            attach.DET['ctx'] = ctx
         mod.run_shard(ctx, spec)
+        if attach.DET['recs']:
+            attach.replay_recorded(random.Random(int(seed) * 7 + 1))
+            attach.replay_recorded(random.Random(int(seed) * 7 + 2))
     d = ctx.dump()
     d['cover'] = cover.collected()
     with open(out, 'w') as f:
